@@ -17,7 +17,7 @@ use std::io::Read;
 const P: &str = "C04";
 
 pub const W_PREFIX: Weights = Weights { create: 10, drop: 1, insert: 12, update: 4, delete: 2, select: 0, wstream: 3, rstream: 1, summary: 2, sum_cp: 0, db_cp: 1, flush: 1, reopen: 2 };
-pub const PROFILE: Profile = Profile { name: "reject", allow_empty: true, allow_key_update: false, allow_long: false, codepages: true, non_ascii: true };
+pub const PROFILE: Profile = Profile { name: "reject", allow_empty: true, allow_key_update: false, allow_long: false, codepages: true, non_ascii: true, try_invalid: false };
 
 /// The catalogue of invalid calls (selectors are resolved against the state
 /// reached by the prefix).
